@@ -5,6 +5,7 @@ import CqlVerif.Drv.Core
 import CqlVerif.Drv.Storm
 import CqlVerif.Drv.Sched
 import CqlVerif.Drv.Gate
+import CqlVerif.Drv.Prep
 open CqlVerif.Drv
 
 def dispatch (stream op real : String) : Verdict :=
@@ -16,6 +17,7 @@ def dispatch (stream op real : String) : Verdict :=
   | "storm" => StormStream.handle op real
   | "sched" => SchedStream.handle op real
   | "gate" => GateStream.handle op real
+  | "prep" => PrepStream.handle op real
   | _ => { kind := "diff", detail := s!"unknown stream {stream}" }
 
 partial def loop (h : IO.FS.Stream) (out : IO.FS.Stream) : IO Unit := do
